@@ -205,6 +205,8 @@ def _gen_repeat(rng):
         d = rng.randint(1, 60) * Q + rng.choice([0, 0, 0, 1, -1])
     else:
         d = rng.choice([0, -Q, 1])
+    if dur and d > 8 * dur:                 # keep the number of copies small (a 1-tick piece would need 2^40 copies)
+        d = dur * rng.randint(1, 8) + rng.choice([0, -1, 1]) * min(1, dur - 1)
     return {'op': 'repeat', 'input': {'seq': s, 'd': d, 'sd': sd}}
 
 
@@ -614,7 +616,7 @@ def _oracle_repeat(a, io):
     if dur < desc['total'] or _quantized(desc):
         return None                         # outside the quantifier (duration >= total_time, unquantized)
     n = -((-d) // dur)
-    if n <= 0 or desc['total'] == 0:
+    if n <= 0 or (n - 1) * dur + desc['total'] == 0:      # nothing to cut: extract_subsequence rejects total_time 0
         return _expect_exc(io, 'ValueError', 'repeat', 'empty-result')
     if io[0] != 'OK':
         return {'kind': 'repeat-valid-input-rejected', 'got': io[1]}
